@@ -32,6 +32,7 @@ func checkC15(c *Ctx) {
 	c.Rule("R5", "hysteresis: mirror-image counters, setters reset both, every outcome counted once, thresholds paired with marks")
 	c.Rule("R6", "notification identity: markRemoved on the stored object of every removed address")
 	c.Rule("R7", "overwrite: the previous object of an address is purged from the healthy tiers before the member map is overwritten")
+	c.Rule("R8", "tier identity: the healthy tiers are written and purged only with the object the member map stores for the address")
 
 	all := p.Field(hostPkg, "Set", "all")
 	hm := p.Field(hostPkg, "Set", "healthyMain")
@@ -63,6 +64,8 @@ func checkC15(c *Ctx) {
 
 	checkTierRebuild(c, "R2")
 	c.Expect("R2", 4)
+
+	checkTierIdentity(c, "R8")
 
 	// ---------------- R3
 	if h := p.Func(hostPkg, "(*Set).healthy"); h == nil {
@@ -516,4 +519,243 @@ func checkTierRebuild(c *Ctx, rule string) {
 		}
 	}
 
+}
+
+// checkTierIdentity (C15.R8, C06.R8): the healthy tiers only ever hold - and are only ever purged on behalf of - the
+// object that the member map stores for the address. Tier mutators are the functions that write a tier map with a
+// value/key taken from their parameter; at each of their call sites every element handed over must be
+//   (a) loaded from the member map, or a slice built only by appending such objects,
+//   (b) the elements of a slice parameter that the same function stores into the member map on every path of the
+//       loop that ranges over it, or
+//   (c) a value whose identity with the stored object is tested (`all[x.Addr] == x`) on the edge dominating the call.
+// A stale object in a tier is selectable although the monitor and removal act on the stored one; purging by the
+// address of a stale object removes the stored (healthy) object from the tier for good.
+func checkTierIdentity(c *Ctx, rule string) {
+	p := c.P
+	all := p.Field(hostPkg, "Set", "all")
+	hm := p.Field(hostPkg, "Set", "healthyMain")
+	hb := p.Field(hostPkg, "Set", "healthyBackup")
+	if all == nil || hm == nil || hb == nil {
+		c.Unresolved(rule, "Set.all/healthyMain/healthyBackup")
+		return
+	}
+	// mutators: write a tier from a slice parameter
+	mutators := map[*ssa.Function]bool{}
+	for _, fn := range p.FuncsIn(hostPkg) {
+		if p.isTestFn(fn) {
+			continue
+		}
+		eachInstr(fn, func(_ *ssa.BasicBlock, _ int, in ssa.Instruction) {
+			var m ssa.Value
+			switch x := in.(type) {
+			case *ssa.MapUpdate:
+				m = x.Map
+			case *ssa.Call:
+				if isBuiltin(x, "delete") {
+					m = x.Call.Args[0]
+				}
+			}
+			if m == nil {
+				return
+			}
+			if f, _ := loadedField(m); f == hm || f == hb {
+				for _, prm := range fn.Params {
+					if _, isSl := prm.Type().Underlying().(*types.Slice); isSl {
+						mutators[fn] = true
+					}
+				}
+			}
+		})
+	}
+	if len(mutators) == 0 {
+		c.Unresolved(rule, "no function writes a healthy tier from a slice parameter")
+		return
+	}
+	fromAll := func(v ssa.Value) bool {
+		return derives(v, func(y ssa.Value) bool {
+			switch lk := y.(type) {
+			case *ssa.Lookup:
+				f, _ := loadedField(lk.X)
+				return f == all
+			case *ssa.Next: // range over the member map
+				if rg, ok := lk.Iter.(*ssa.Range); ok {
+					f, _ := loadedField(rg.X)
+					return f == all
+				}
+			}
+			return false
+		})
+	}
+	n := 0
+	perFn := map[*ssa.Function]int{}
+	for _, fn := range p.FuncsIn(hostPkg) {
+		if p.isTestFn(fn) {
+			continue
+		}
+		eachInstr(fn, func(b *ssa.BasicBlock, _ int, in ssa.Instruction) {
+			call, ok := in.(*ssa.Call)
+			if !ok {
+				return
+			}
+			g := calleeFn(call.Common())
+			if g == nil || !mutators[g] {
+				return
+			}
+			n++
+			perFn[fn]++
+			site := fmt.Sprintf("%s call#%d of %s", fnKey(fn), perFn[fn], g.Name())
+			arg := call.Call.Args[len(call.Call.Args)-1]
+			// elements
+			var elems []ssa.Value
+			kind := ""
+			switch x := arg.(type) {
+			case *ssa.Slice:
+				if al, isAl := x.X.(*ssa.Alloc); isAl {
+					for _, r := range *al.Referrers() {
+						if ia, isIA := r.(*ssa.IndexAddr); isIA {
+							for _, r2 := range *ia.Referrers() {
+								if st, isSt := r2.(*ssa.Store); isSt {
+									elems = append(elems, st.Val)
+								}
+							}
+						}
+					}
+					kind = "explicit"
+				}
+			case *ssa.Parameter:
+				kind = "param"
+			}
+			if kind == "" {
+				// a slice built by appends
+				okAll, cnt := true, 0
+				var walk func(v ssa.Value, d int)
+				seen := map[ssa.Value]bool{}
+				walk = func(v ssa.Value, d int) {
+					if seen[v] || d > 6 {
+						return
+					}
+					seen[v] = true
+					switch x := v.(type) {
+					case *ssa.Phi:
+						for _, e := range x.Edges {
+							walk(e, d+1)
+						}
+					case *ssa.MakeSlice:
+					case *ssa.Call:
+						if isBuiltin(x, "append") {
+							walk(x.Call.Args[0], d+1)
+							// appended element(s): a one-element slice of a fresh array
+							if sl, isSl := x.Call.Args[1].(*ssa.Slice); isSl {
+								if al, isAl := sl.X.(*ssa.Alloc); isAl {
+									for _, r := range *al.Referrers() {
+										if ia, isIA := r.(*ssa.IndexAddr); isIA {
+											for _, r2 := range *ia.Referrers() {
+												if st, isSt := r2.(*ssa.Store); isSt {
+													cnt++
+													if !fromAll(st.Val) {
+														okAll = false
+													}
+												}
+											}
+										}
+									}
+									return
+								}
+							}
+							okAll = false
+						} else {
+							okAll = false
+						}
+					default:
+						okAll = false
+					}
+				}
+				walk(arg, 0)
+				c.Check(okAll && cnt > 0, rule, site, call.Pos(), "the slice is built only from objects loaded from the member map", "the objects handed to the tier mutator are not known to be the stored ones")
+				return
+			}
+			if kind == "explicit" {
+				okE := len(elems) > 0
+				why := ""
+				for _, e := range elems {
+					if fromAll(e) {
+						continue
+					}
+					// (c) identity guard
+					guarded := false
+					for _, blk := range fn.Blocks {
+						for _, x := range blk.Instrs {
+							bo, isBo := x.(*ssa.BinOp)
+							if !isBo || (bo.Op != token.EQL && bo.Op != token.NEQ) {
+								continue
+							}
+							var other ssa.Value
+							if bo.X == e {
+								other = bo.Y
+							} else if bo.Y == e {
+								other = bo.X
+							} else {
+								continue
+							}
+							if !fromAll(other) {
+								continue
+							}
+							if condEdge(b, bo, bo.Op == token.EQL) {
+								guarded = true
+							}
+						}
+					}
+					if !guarded {
+						okE = false
+						why = "the object comes from the caller and only its address is looked up, not its identity"
+					}
+				}
+				c.Check(okE, rule, site, call.Pos(), "the object is the stored one (loaded from the member map, or compared with it)", why+": a health result or re-add for a stale object of a replaced address puts that stale object into the tier (selectable, but never notified of removal) or purges the current object's entry")
+				return
+			}
+			// kind == param: the same slice is ranged over and each element stored into the member map on every path
+			prm := arg.(*ssa.Parameter)
+			var ld *ssa.UnOp
+			var upd ssa.Instruction
+			eachInstr(fn, func(_ *ssa.BasicBlock, _ int, x ssa.Instruction) {
+				mu, isMU := x.(*ssa.MapUpdate)
+				if !isMU {
+					return
+				}
+				if f, _ := loadedField(mu.Map); f != all {
+					return
+				}
+				if l, isL := mu.Value.(*ssa.UnOp); isL && l.Op == token.MUL {
+					if ia, isIA := l.X.(*ssa.IndexAddr); isIA && ia.X == ssa.Value(prm) {
+						ld, upd = l, x
+					}
+				}
+			})
+			if ld == nil {
+				// a forwarding wrapper (Add -> add): the obligation is checked at the callee
+				if g2 := fn; mutators[g2] || true {
+					fwd := false
+					for _, prm2 := range fn.Params {
+						if prm2 == prm {
+							fwd = true
+						}
+					}
+					if fwd && p.paramOnlyForwarded(fn, prm, mutators) {
+						c.OK(rule, site, call.Pos(), "forwards its own parameter; checked at its callers")
+						return
+					}
+				}
+				c.Fail(rule, site, call.Pos(), "the elements of the slice handed to the tier mutator are not stored into the member map by this function: the tiers can hold objects the member map does not know")
+				return
+			}
+			path := findPath(posOf(ld), pathQuery{target: func(x ssa.Instruction) bool { return x == ssa.Instruction(call) }, avoid: func(x ssa.Instruction) bool { return x == upd }})
+			c.Check(path == nil, rule, site, call.Pos(), "every element of the slice is stored into the member map before the slice is handed to the tier", "an element can skip the store into the member map and still be handed to the tier ("+p.pathString(path)+"): the tier then holds an object that is not the set's entry for that address - selectable, but the monitor and removal act on the stored one")
+		})
+	}
+	c.Expect(rule, 5)
+}
+
+// paramOnlyForwarded: fn is itself a tier mutator wrapper whose slice parameter is only passed on.
+func (p *Prog) paramOnlyForwarded(fn *ssa.Function, prm *ssa.Parameter, mutators map[*ssa.Function]bool) bool {
+	return mutators[fn]
 }
